@@ -182,6 +182,8 @@ theorem LInv.kill {c : Cfg} {s : St} (l : LInv s) : LInv (kill c s) := by
 theorem LInv.step {c : Cfg} {s : St} (l : LInv s) (e : Ev) : LInv (step c s e) := by
   cases e with
   | nodeDone n => exact l.same (fun d h => h) rfl
+  | nodeFailed n => exact l
+  | nodeReset n => exact l
   | removeEmpty => exact l.ofFrame (foldRemove_frame (fun a => (c.namesOf a).isEmpty) s.dom s)
   | cacheMap => exact l.same (fun d h => (cacheMap_disk c s) ▸ h) (by show (cacheMap c s).report.paths = _; rw [cacheMap_report])
   | early upto =>
